@@ -291,3 +291,31 @@ def run(ctx):
             "(value levels, mask, exploration flag, env-defined action, raw output, noise) taken from TLC's grid; distinct = distinct "
             "tuples; non-trivial = some action masked, or a tie between values, or a continuous row, or an env-defined action")
     return "model_checking", rule, False
+
+
+def replay(path):
+    """./check C14 --replay PATH: re-execute the recorded call on the real agent, validate it again through TLC."""
+    import torch
+
+    from .. import trace as trace_mod
+    from ..drive import actionsel as A
+
+    torch.set_num_threads(1)
+    rp = json.loads(open(path).read())
+    r = rp["replay"]
+    print(f"replaying {rp['signature']}")
+    if r.get("kind") != "rejected-trace":
+        print(str(r.get("text", ""))[:6000])
+        return 1
+    old = r["trace"]
+    new = A.rerun(old["cfg"], seed=rp.get("seed", 0))
+    for k, (g, e0, e1) in enumerate(zip(old["cfg"]["call"], old["ev"], new["ev"]), start=1):
+        print(f"-- agent/group {k}: kind={g['kind']} single={g['single']} sizes={g['sizes']} lo={g['lo']} hi={g['hi']} mode={g['mode']} req={g['req']}")
+        print(f"   recorded: exc={e0['exc']!r} shape={e0['shape']} width={e0['width']}   now: exc={e1['exc']!r} shape={e1['shape']} width={e1['width']}")
+        for i, row in enumerate(g["rows"][:12]):
+            o0 = e0["outs"][i] if i < len(e0["outs"]) else None
+            o1 = e1["outs"][i] if i < len(e1["outs"]) else None
+            print(f"   row {i + 1}: in={ {kk: vv for kk, vv in row.items() if vv != []} }  recorded={o0}  now={o1}")
+    v = trace_mod.validate("ActionSel_Trace", TRACE_CFG, [new])[0]
+    print("TLC verdict on the re-execution:", "ACCEPTED" if v.accepted else f"REJECTED at group {v.step}: {v.clauses or v.invariant}")
+    return 0 if v.accepted else 1
